@@ -50,14 +50,22 @@ theorem C12_reject_log (cfg : Config) (ops : StoreOps σ) (pre : List AnnHook) (
   · rw [hk]; refine ⟨k, by simp at hlt; omega, by simp⟩
   · rw [hk] at h; cases h
 
-/-- the built-in response hook never fails (no storage failures): a rejection always comes from
+/-- while the store can be reached the built-in response hook never fails: a rejection always comes from
 one of the configured pre-hooks -/
-theorem responseAnnounce_ok (ops : StoreOps σ) (st : σ) (ctx : Ctx) (req : AnnReq) (resp : AnnResp) :
+theorem responseAnnounce_ok (ops : StoreOps σ) (st : σ) (ctx : Ctx) (req : AnnReq) (resp : AnnResp) (hup : ops.down st = false) :
     ∃ r, responseAnnounce ops st ctx req resp = .ok (ctx, r) := by
   unfold responseAnnounce
   split
   · exact ⟨_, rfl⟩
-  · exact ⟨_, rfl⟩
+  · simp only [hup, Bool.false_eq_true, if_false]
+    exact ⟨_, rfl⟩
+
+/-- with the store unreachable the response hook fails with an internal error (unless a pre-hook asked to
+skip it): the client gets the fixed message, nothing of the store's error -/
+theorem responseAnnounce_down (ops : StoreOps σ) (st : σ) (ctx : Ctx) (req : AnnReq) (resp : AnnResp)
+    (hdown : ops.down st = true) (hskip : ctx.skipResponse = false) :
+    responseAnnounce ops st ctx req resp = .error (.internal "storage failure") := by
+  simp [responseAnnounce, hdown, hskip]
 
 /-- running a chain that ends with the response hook: if a configured pre-hook fails the response
 hook is never reached; otherwise it runs last, on the context and response the pre-hooks produced
@@ -97,6 +105,7 @@ theorem runAnn_append_response (pre : List AnnHook) (ops : StoreOps σ) (st : σ
 the store contains — in particular the store is never consulted, so no peer information can flow
 into what the client receives. -/
 theorem C12_reject_independent_of_store (cfg : Config) (ops : StoreOps σ) (pre : List AnnHook) (st st' : σ) (req : AnnReq) (e : ErrClass)
+    (hup : ops.down st = false)
     (h : (handleAnnounce cfg ops pre st req).2 = .error e) :
     handleAnnounce cfg ops pre st' req = handleAnnounce cfg ops pre st req := by
   unfold handleAnnounce runAnn at h ⊢
@@ -109,7 +118,7 @@ theorem C12_reject_independent_of_store (cfg : Config) (ops : StoreOps σ) (pre 
     | ok cr =>
       obtain ⟨c, r⟩ := cr
       rw [hr] at h
-      obtain ⟨r', hr'⟩ := responseAnnounce_ok ops st c req r
+      obtain ⟨r', hr'⟩ := responseAnnounce_ok ops st c req r hup
       simp only [hr'] at h
       cases h
 
@@ -151,6 +160,38 @@ theorem C12_after (ops : StoreOps σ) (post : List AnnHook) (st : σ) (ctx : Ctx
   · intro log e h; simp [afterAnnounce, h]
   · intro log ctx' resp' h
     refine ⟨by simp [afterAnnounce, h], fun hs => by simp [swarmInteraction, hs]⟩
+
+/-- **Storage failure**: with the store unreachable, an announce that every pre-hook accepts (and that no
+pre-hook marked to skip the response) fails with the internal error after the whole chain has run — whatever the
+request, whatever the store last held -/
+theorem C12_storage_failure (cfg : Config) (ops : StoreOps σ) (pre : List AnnHook) (st : σ) (req : AnnReq) (ctx0 : Ctx) (resp0 : AnnResp)
+    (hdown : ops.down st = true)
+    (hpre : (runAnn pre req 0 {} (initResp cfg req)).2 = .ok (ctx0, resp0)) (hskip : ctx0.skipResponse = false) :
+    (handleAnnounce cfg ops pre st req).2 = .error (.internal "storage failure") := by
+  unfold runAnn at hpre
+  unfold handleAnnounce runAnn
+  rw [runAnn_append_response]
+  cases hr : runAnn.go req pre 0 {} (initResp cfg req) with
+  | mk log res =>
+    rw [hr] at hpre
+    simp only at hpre
+    subst hpre
+    simp only [responseAnnounce_down ops st ctx0 req resp0 hdown hskip]
+
+/-- … and whatever the post-hooks decide, nothing is written: the swarm interaction is a no-op -/
+theorem swarmInteraction_down (ops : StoreOps σ) (st : σ) (ctx : Ctx) (req : AnnReq) (hdown : ops.down st = true) :
+    swarmInteraction ops st ctx req = st := by
+  unfold swarmInteraction
+  split
+  · rfl
+  · simp [hdown]
+
+/-- a scrape during a storage failure reports nothing for every requested infohash (and is not an error) -/
+theorem responseScrape_down (ops : StoreOps σ) (st : σ) (ctx : Ctx) (req : ScrapeReq) (resp : ScrapeResp)
+    (hdown : ops.down st = true) (hskip : ctx.skipResponse = false) :
+    responseScrape ops st ctx req resp =
+      .ok (ctx, { files := resp.files ++ req.infoHashes.map fun ih => { infoHash := ih, snatches := 0, complete := 0, incomplete := 0 } }) := by
+  simp [responseScrape, hdown, hskip]
 
 /-- `SkipResponseHookKey`: the response is left exactly as the pre-hooks produced it -/
 theorem C12_skip_response (ops : StoreOps σ) (st : σ) (ctx : Ctx) (req : AnnReq) (resp : AnnResp) (h : ctx.skipResponse = true) :
